@@ -18,6 +18,7 @@ import (
 )
 
 const failPkg = "verif/harness/go2coq/internal/synthfail"
+const auxPkg = "verif/harness/go2coq/internal/synthaux"
 
 func failCfg(msgs bool) *go2coq.Config {
 	return &go2coq.Config{
@@ -307,5 +308,192 @@ func TestInt64FailStable(t *testing.T) {
 	}
 	if d := tr(strings.ReplaceAll(string(src), "half := budget / 2", "half := budget / 3")); d == a {
 		t.Error("changing a constant of the arithmetic does not change the generated text")
+	}
+}
+
+func failCfgN() *go2coq.Config {
+	cfg := failCfg(true)
+	cfg.Funcs = nil
+	cfg.Stubs["strconv"] = "package strconv\nfunc Itoa(i int) string\n"
+	cfg.Stubs[auxPkg] = "package synthaux\ntype Item struct {\n\tName string\n\tData []byte\n}\ntype Bag struct {\n\tComment []byte\n\tItems []Item\n}\nfunc Size(b *Bag) int\n"
+	cfg.Lib[auxPkg+".Size"] = go2coq.LibFunc{Coq: "t_Size"}
+	cfg.Lib["strconv.Itoa"] = go2coq.LibFunc{Coq: "go_fmt_int"}
+	cfg.NoReturn = []string{"M.Fatalf", "N.Fatalf"}
+	cfg.RefMaps = []string{"map[string]string"}
+	cfg.Structs[auxPkg+".Item"] = go2coq.Struct{CoqType: "(bytes * bytes)%type", Ctor: "pair",
+		Fields: []go2coq.Field{{Go: "Name", Getter: "fst"}, {Go: "Data", Getter: "snd"}}}
+	cfg.Structs[auxPkg+".Bag"] = go2coq.Struct{CoqType: "(bytes * list (bytes * bytes))%type", Ctor: "pair",
+		Fields: []go2coq.Field{{Go: "Comment", Getter: "fst"}, {Go: "Items", Getter: "snd"}}}
+	cfg.Structs[failPkg+".N"] = go2coq.Struct{CoqType: "t_N", Ctor: "t_mkN", Partial: true,
+		Fields: []go2coq.Field{{Go: "index", Getter: "t_nidx"}, {Go: "bag", Getter: "t_nbag"}, {Go: "label", Getter: "t_nlabel"}}}
+	cfg.Segments = []go2coq.Segment{
+		{Func: "N.Note", Name: "all", After: "os.Getenv", Before: "os.Setenv", State: []string{"n"}},
+		{Func: "N.Fill", Name: "item", After: "var:it", State: []string{"it"}},
+		{Func: "N.Total", Name: "args", Args: "os.Setenv"},
+	}
+	return cfg
+}
+
+const failPreambleN = `From Coq Require Import List ZArith NArith Bool.
+From Coq.Strings Require Import Byte.
+Import ListNotations.
+From GI Require Import Lib.Bytes Lib.GoSem Lib.GoSemExt Lib.GoSemSeg Lib.GoSemState Lib.GoSemData Lib.GoSemInt64 Lib.GoSemFail.
+Import GoNotations.
+Local Open Scope go_scope.
+Local Open Scope Z_scope.
+
+Definition t_N : Type := (mapref bytes * (bytes * list (bytes * bytes)) * bytes)%type.
+Definition t_mkN (i : mapref bytes) (b : bytes * list (bytes * bytes)) (l : bytes) : t_N := (i, b, l).
+Definition t_nidx (n : t_N) := fst (fst n).
+Definition t_nbag (n : t_N) := snd (fst n).
+Definition t_nlabel (n : t_N) := snd n.
+Definition t_Size (b : bytes * list (bytes * bytes)) : Z := len (fst b) + len_of (snd b).
+
+`
+
+// State that is a local pointer, state together with no-return calls, v, ok := m[k] on a written
+// map in a field, a pointer-valued field handed to a table function, dead jumps after a
+// no-return call.
+func TestSegStateFailAgainstGo(t *testing.T) {
+	src, err := os.ReadFile("internal/synthfail/synthfail.go")
+	if err != nil {
+		t.Fatal(err)
+	}
+	fset, f := parseFail(t, string(src))
+	r, err := go2coq.Translate(fset, []*ast.File{f}, failPkg, failCfgN())
+	if err != nil {
+		t.Fatal(err)
+	}
+	var ex []string
+	add := func(call, want string) { ex = append(ex, fmt.Sprintf("(%s) = %s", call, want)) }
+	type kv struct{ k, v string }
+	mapVal := func(h []kv) string {
+		var parts []string
+		for i := len(h) - 1; i >= 0; i-- {
+			parts = append(parts, "("+coqBytes([]byte(h[i].k))+", "+coqBytes([]byte(h[i].v))+")")
+		}
+		return "(Some [" + strings.Join(parts, "; ") + "])"
+	}
+	nval := func(h []kv) string { return "(t_mkN " + mapVal(h) + " ([], []) [])" }
+	n := synthfail.NewN()
+	var hist []kv
+	for _, c := range []kv{{"a", "1"}, {"a", "1"}, {"a", "2"}, {"b", "1"}, {"", "x"}, {"b", "1"}, {"a", "1"}, {"a", "1"}} {
+		os.Unsetenv("SYNTHFAIL_B")
+		var got bool
+		failed := synthfail.Caught(func() { got = n.Note(c.k, c.v) })
+		call := fmt.Sprintf("f_N_Note_all %s %s %s", nval(hist), coqBytes([]byte(c.k)), coqBytes([]byte(c.v)))
+		switch {
+		case failed:
+			add(call, "Ok (Return (FailedM "+coqBytes([]byte("empty key for %q"))+"))")
+		case !got:
+			add(call, "Ok (Return (DoneM ("+nval(hist)+", false)))")
+		default:
+			hist = append(hist, c)
+			add(call, "Ok (Normal "+nval(hist)+")")
+			if v, ok := n.Index(c.k); !ok || v != c.v {
+				t.Fatalf("Note(%q, %q) did not store", c.k, c.v)
+			}
+		}
+	}
+	for _, name := range []string{"x", "y"} {
+		for _, content := range []string{"", "new"} {
+			for _, found0 := range []bool{false, true} {
+				n := synthfail.NewN(synthfail.Item{Name: "x", Data: []byte("old")})
+				var found bool
+				failed := synthfail.Caught(func() { found = n.Fill(name, content) })
+				it := "(" + coqBytes([]byte("x")) + ", " + coqBytes([]byte("old")) + ")"
+				call := fmt.Sprintf("f_N_Fill_item %s %s %v %s", coqBytes([]byte(name)), coqBytes([]byte(content)), found0, it)
+				switch {
+				case failed:
+					add(call, "Ok (Return (FailedM "+coqBytes([]byte("no content for %q"))+"))")
+				case !found:
+					add(call, fmt.Sprintf("Ok (Continue (%v, %s))", found0, it))
+				default:
+					add(call, fmt.Sprintf("Ok (Normal (true, (%s, %s)))", coqBytes([]byte("x")), coqBytes(n.Items()[0].Data)))
+				}
+			}
+		}
+	}
+	n2 := synthfail.NewN(synthfail.Item{Name: "p"}, synthfail.Item{Name: "q"}, synthfail.Item{Name: "r"})
+	n2.SetLabel("SYNTHFAIL_T")
+	n2.Total()
+	add("f_N_Total_args (t_mkN None ([], [([x70], []); ([x71], []); ([x72], [])]) "+coqBytes([]byte("SYNTHFAIL_T"))+")",
+		"Ok ("+coqBytes([]byte("SYNTHFAIL_T"))+", "+coqBytes([]byte(os.Getenv("SYNTHFAIL_T")))+")")
+	if n2.Len() != 0 {
+		t.Fatal("Len")
+	}
+
+	theories, _ := filepath.Abs("../../coq/theories")
+	if th := os.Getenv("GO2COQ_THEORIES"); th != "" {
+		theories = th
+	}
+	if _, err := os.Stat(filepath.Join(theories, "Lib", "GoSemFail.vo")); err != nil {
+		t.Skip("compiled Lib/GoSemFail.vo not found under " + theories)
+	}
+	if _, err := exec.LookPath("coqc"); err != nil {
+		t.Skip("coqc not found")
+	}
+	dir := t.TempDir()
+	var b strings.Builder
+	b.WriteString(failPreambleN)
+	b.WriteString(r.Text)
+	for i, e := range ex {
+		fmt.Fprintf(&b, "Example ex%d : %s.\nProof. vm_compute. reflexivity. Qed.\n", i, e)
+	}
+	file := filepath.Join(dir, "SynthFailN.v")
+	if err := os.WriteFile(file, []byte(b.String()), 0o644); err != nil {
+		t.Fatal(err)
+	}
+	if keep := os.Getenv("GO2COQ_KEEP"); keep != "" {
+		os.WriteFile(keep+".failn", []byte(b.String()), 0o644)
+	}
+	cmd := exec.Command("timeout", "300", "coqc", "-q", "-Q", theories, "GI", file)
+	cmd.Dir = dir
+	out, err := cmd.CombinedOutput()
+	if err != nil {
+		t.Fatalf("coqc: %v\n%s", err, out)
+	}
+	t.Logf("%d evaluations of %d translated segments agree with Go", len(ex), len(r.Funcs))
+}
+
+// The conditions of these constructs.
+func TestSegStateFailRejects(t *testing.T) {
+	head := "package synthfail\nimport (\"errors\"; \"flag\"; \"os\"; \"time\"; \"" + auxPkg + "\")\nvar _ = errors.New\nvar _ time.Duration\nvar _ = flag.Bool\nvar _ = synthaux.Size\n" +
+		"type Opts struct { Keep bool; Limit time.Duration; Hook func() }\n" +
+		"type M struct { opts Opts; grace time.Duration; name string; hook func(); seen map[string]bool }\n" +
+		"func (m *M) Fatalf(format string, args ...any) { panic(\"x\") }\n" +
+		"type Item = synthaux.Item\ntype Bag = synthaux.Bag\n" +
+		"type N struct { index map[string]string; bag *Bag; label string }\nfunc (n *N) Fatalf(format string, args ...any) { panic(\"x\") }\n"
+	cases := []struct {
+		name, body, want string
+		segs             []go2coq.Segment
+	}{
+		{"dead-code", "func (n *N) F(k string) { os.Getenv(\"A\"); if k == \"\" { n.Fatalf(\"x\"); k = \"y\" }; os.Setenv(k, \"\") }", "unreachable code",
+			[]go2coq.Segment{{Func: "N.F", Name: "s", After: "os.Getenv", Before: "os.Setenv"}}},
+		{"map-copied", "func (n *N) F(k string) { os.Getenv(\"A\"); m := n.index; m[k] = k; os.Setenv(k, \"\") }", "could be shared",
+			[]go2coq.Segment{{Func: "N.F", Name: "s", After: "os.Getenv", Before: "os.Setenv", State: []string{"n"}}}},
+		{"map-literal", "func mk(m map[string]string) *N { return &N{index: m} }\nfunc (n *N) F(k string) { os.Getenv(\"A\"); n.index[k] = k; os.Setenv(k, \"\") }", "set in a struct literal",
+			[]go2coq.Segment{{Func: "N.F", Name: "s", After: "os.Getenv", Before: "os.Setenv", State: []string{"n"}}}},
+		{"state-not-pointer", "func (n *N) F(k string) { os.Getenv(\"A\"); c := 1; c++; os.Setenv(k, \"\") }", "state variable c",
+			[]go2coq.Segment{{Func: "N.F", Name: "s", After: "os.Getenv", Before: "os.Setenv", State: []string{"c"}}}},
+		{"ptr-field-escapes", "func keep(b *Bag) {}\nfunc (n *N) F(k string) { os.Getenv(\"A\"); keep(n.bag); os.Setenv(k, \"\") }", "",
+			[]go2coq.Segment{{Func: "N.F", Name: "s", After: "os.Getenv", Before: "os.Setenv"}}},
+	}
+	for _, c := range cases {
+		cfg := failCfgN()
+		cfg.Segments = c.segs
+		fset := token.NewFileSet()
+		f, err := parser.ParseFile(fset, "x.go", head+c.body+"\n", 0)
+		if err != nil {
+			t.Fatalf("%s: %v", c.name, err)
+		}
+		_, err = go2coq.Translate(fset, []*ast.File{f}, failPkg, cfg)
+		if err == nil {
+			t.Errorf("%s: accepted", c.name)
+			continue
+		}
+		if _, ok := err.(*go2coq.Unsupported); !ok || !strings.Contains(err.Error(), c.want) {
+			t.Errorf("%s: error %q does not mention %q", c.name, err, c.want)
+		}
 	}
 }
